@@ -1,6 +1,7 @@
 import Orx.KSRun
 import Orx.GenThms.Adapt
 import Orx.GenThms.ProtoAdapt
+import Orx.GenThms.Surface
 /-! # C13 cloned() / copied() adaptors are transparent -/
 namespace Orx.Props.C13
 open Orx Orx.KS
@@ -139,5 +140,28 @@ theorem source_adaptor_buffered_next_is_the_wrappers {ρ' : Type} (k : Nat) (val
   ⟨cloned_buffered_next_tree k vals, copied_buffered_next_tree k vals⟩
 
 end SourceWrapper
+
+section Surface
+open Orx.GenThms.Surface
+
+/-- `Cloned` / `Copied` define the six required methods of `ConcurrentIter` (each forwarding to the underlying iterator: translated) and
+nothing else; everything else is the trait's default, as for the underlying iterator -/
+theorem source_adaptors_define_the_forwarding_methods_only :
+    (implementors.all fun x => (fnsOf "ConcurrentIter" x).length == 1 &&
+      (fnsOf "ConcurrentIter" x).all (sameSet requiredConcurrentIter)) = true ∧
+    sameSet (implsOf "ConcurrentIter") implementors = true ∧
+    fnsOf "trait" "ConcurrentIter" = [["into_seq_iter", "next_id_and_value", "next_chunk", "buffered_iter", "next", "values",
+      "ids_and_values", "skip_to_end", "for_each", "enumerate_for_each", "fold", "try_get_len", "has_more"]] :=
+  Orx.GenThms.Surface.concurrent_iter_defaults_are_not_overridden
+
+/-- … and the five required methods of `AtomicIter` -/
+theorem source_adaptors_define_the_forwarding_atomic_methods_only :
+    (implementors.all fun x => (fnsOf "AtomicIter" x).length == 1 &&
+      (fnsOf "AtomicIter" x).all (sameSet requiredAtomicIter)) = true ∧
+    sameSet (implsOf "AtomicIter") implementors = true ∧
+    fnsOf "trait" "AtomicIter" = [["counter", "progress_and_get_begin_idx", "get", "fetch_one", "fetch_n", "early_exit"]] :=
+  Orx.GenThms.Surface.atomic_iter_defaults_are_not_overridden
+
+end Surface
 
 end Orx.Props.C13
